@@ -112,7 +112,7 @@ func C07(o *world.Obs) *Result {
 	// conservatively), so this half is judged by a dedicated rule: an obligation exists for
 	// a cross-origin entry iff the shadow built WITHOUT the unsafe exchanges would oblige it
 	// and the only unsafe exchanges in between name it cross-origin.
-	crossOriginObligations(o, r)
+	crossOriginObligations(o, r, "C07")
 	return r
 }
 
@@ -125,7 +125,7 @@ func methodClass(m string) string {
 }
 
 // crossOriginObligations implements the positive half of C07.
-func crossOriginObligations(o *world.Obs, r *Result) {
+func crossOriginObligations(o *world.Obs, r *Result, prop string) {
 	// Build a copy of the log without unsafe exchanges whose target origin differs from every
 	// stored entry they name; then obligations of that filtered history that concern a URL
 	// named cross-origin by a dropped exchange must hold in the real history.
@@ -192,7 +192,7 @@ func crossOriginObligations(o *world.Obs, r *Result) {
 			continue
 		}
 		if len(o.CallsOf(ex.Idx)) > 0 || world.TokOf(ex.Resp.Header) != ob.Entry.Reply.Serial {
-			r.Fail("C07", "cross-origin-evicted", ex.Idx, "fresh entry s%d of %s was named cross-origin by an unsafe response's Location/Content-Location and is no longer served from the store; %s",
+			r.Fail(prop, "cross-origin-evicted", ex.Idx, "fresh entry s%d of %s was named cross-origin by an unsafe response's Location/Content-Location and is no longer served from the store; %s",
 				ob.Entry.Reply.Serial, ob.Entry.URL, SummarizeExchange(o, ex))
 		}
 	}
